@@ -13,6 +13,9 @@ logz, logl and returns a pair.
          reduction consumes axis T, logw: Shift(beta_final)[S], logz_new:
          Shift(beta_final), normalised logw: Inv & Norm
   C04.c  log-domain discipline: no exponential of a value that is not shift-free
+  C04.e  memo invalidation: every attribute the history-owning class memoises
+         (tested for emptiness and filled by one method) is reset by every method
+         that mutates an attribute the memo was computed from
   C04.d  all mixture components are used: history vectors along T are never
          sub-selected, merged, sorted or special-cased by length
 """
@@ -45,7 +48,15 @@ ASSUMPTIONS = ["recorded logz of iteration t shifts by beta_t * c (the guarantee
 
 
 def make_source(ctx: Context, f: FuncInfo):
+    from ..memo import class_memos
+
+    memo_attrs = {m.attr for m in class_memos(ctx, f.cls)[0]} if f.cls is not None else set()
+
     def source(e: ast.expr, env) -> Optional[ST]:
+        # a value read back from a memo attribute: its type is whatever was stored; the stored value is typed
+        # where it is computed and its freshness is C04.e's obligation
+        if isinstance(e, ast.Attribute) and isinstance(e.value, ast.Name) and e.value.id == "self" and e.attr in memo_attrs:
+            return ST("unknown", why=f"memo:{e.attr}")
         if isinstance(e, ast.Call) and isinstance(e.func, ast.Attribute) and e.func.attr in ("get_history",) and e.args and isinstance(e.args[0], ast.Constant):
             k = e.args[0].value
             flat = any(kw.arg == "flat" and const_value(kw.value) is True for kw in e.keywords) or (len(e.args) > 2 and const_value(e.args[2]) is True)
@@ -126,6 +137,9 @@ def rule_b(ctx: Context, R: Reporter, f: FuncInfo):
     for (r, t) in main:
         lw, lz = t.items
         bad_comp = False
+        if any(comp.kind == "unknown" and comp.why.startswith("memo:") for comp in (lw, lz)):
+            R.analysed["C04.b:returns_of_memoised_values"] = R.analysed.get("C04.b:returns_of_memoised_values", 0) + 1
+            continue
         for comp, name in ((lw, "log-weights"), (lz, "evidence")):
             if comp.kind == "unknown":
                 untypable.append(f"{name}: {comp.why}")
@@ -269,6 +283,16 @@ def run(ctx: Context, R: Reporter):
     f = _weights_fn(ctx)
     R.guard(rule_a, ctx, R, f)
     R.guard(rule_b, ctx, R, f)
+    R.guard(rule_e, ctx, R, f)
+
+
+def rule_e(ctx: Context, R: Reporter, f):
+    """C04.e  the weights are a function of the *current* history: whatever the
+    history-owning class memoises across calls is reset by every method that
+    changes the history (commit, import)."""
+    from ..memo import memo_rule
+
+    memo_rule(ctx, R, "C04.e", [f.cls], "a later weight / evidence / results query answers from a history that has since been extended or replaced", min_memos=1)
 
 
 def variants():
@@ -278,6 +302,9 @@ def variants():
     g = "StateManager.compute_logw_and_logz"
     return [
         Variant("b-drop-logz-normaliser", "bad", replace_expr(sm, g, "logl_all[:, None] * beta[None, :] - logz_iter[None, :]", "logl_all[:, None] * beta[None, :]"), ["C04.b", "C04.a"], quick=True),
+        Variant("e-commit-keeps-results-memo", "bad", delete_stmt(sm, "StateManager.commit_current_to_history", "self._invalidate_cache()"), ["C04.e"], quick=True),
+        Variant("e-logw-memo-never-reset", "bad", _memo_variant(False), ["C04.e"]),
+        Variant("e-logw-memo-reset-benign", "benign", _memo_variant(True)),
         Variant("a-drop-mixture-weights", "bad", replace_expr(sm, g, "b + log_mixture_weights[None, :]", "b"), ["C04.a"], quick=True),
         Variant("a-uniform-mixture-weights", "bad", replace_stmt(sm, g, "log_mixture_weights = np.log(n_per_iter) - np.log(N_total)", "log_mixture_weights = -np.log(len(beta)) * np.ones(len(beta))"), ["C04.a"]),
         Variant("b-wrong-axis", "bad", replace_expr(sm, g, "np.logaddexp.reduce(b_weighted, axis=1)", "np.logaddexp.reduce(b_weighted, axis=0)"), ["C04.b"], quick=True),
@@ -292,3 +319,18 @@ def variants():
         Variant("benign-inline-A", "benign", replace_stmt(sm, g, "logw = A - B", "logw = beta_final * logl_all - B")),
         Variant("benign-log-ratio", "benign", replace_stmt(sm, g, "log_mixture_weights = np.log(n_per_iter) - np.log(N_total)", "log_mixture_weights = np.log(n_per_iter / N_total)")),
     ]
+
+
+def _memo_variant(with_reset: bool):
+    from ..variants import chain, insert_after, insert_before, replace_stmt
+
+    sm = "tempest/state_manager.py"
+    g = "StateManager.compute_logw_and_logz"
+    steps = [
+        insert_after(sm, "StateManager.__init__", "self._results_dict = None", "self._lw_memo = None"),
+        insert_before(sm, g, "logz_iter = np.asarray", "if self._lw_memo is not None and self._lw_memo[0] == (beta_final, normalize):\n    return self._lw_memo[1]"),
+        replace_stmt(sm, g, "return logw, logz_new", "self._lw_memo = ((beta_final, normalize), (logw.copy(), logz_new))\nreturn logw, logz_new"),
+    ]
+    if with_reset:
+        steps.append(insert_after(sm, "StateManager._invalidate_cache", "self._results_dict = None", "self._lw_memo = None"))
+    return chain(*steps)
